@@ -44,7 +44,7 @@ func addORShortcut(node ischema.Node, rootSchema *ischema.ISchema, val string) {
 		CompileBasic(&typ, true)
 
 		lex := node.BasisLexEventOfSchemaForNode()
-		rootSchema.AddUnnamedType(&typ, lex.File(), lex.Begin())
+		rootSchema.AddUnnamedType(&typ, lex.File(), 0)
 
 		s = strings.TrimSpace(s)
 		ss.AddName(s, s, schema.RuleASTNodeSourceGenerated)
